@@ -510,7 +510,7 @@ spifconf_shell_expand(spif_charptr_t s)
     register spif_charptr_t tmp;
     register spif_charptr_t pbuff = s, tmp1;
     register spif_uint32_t j, k, l = 0;
-    spif_char_t newbuff[CONFIG_BUFF];
+    spif_charptr_t newbuff;
     spif_uint8_t in_single = 0, in_double = 0;
     spif_uint32_t cnt1 = 0, cnt2 = 0;
     const spif_uint32_t max = CONFIG_BUFF - 1;
@@ -518,9 +518,9 @@ spifconf_shell_expand(spif_charptr_t s)
 
     ASSERT_RVAL(s != NULL, (spif_charptr_t) NULL);
 
-#if 0
+    /* This function calls itself for every nested %function() and backquote; the result buffer
+       must not live on the stack, or a few hundred levels of nesting exhaust it. */
     newbuff = (spif_charptr_t) MALLOC(CONFIG_BUFF);
-#endif
 
     for (j = 0; *pbuff && j < max; pbuff++, j++) {
         switch (*pbuff) {
@@ -616,6 +616,7 @@ spifconf_shell_expand(spif_charptr_t s)
                   if (l) {
                       libast_print_error("parse error in file %s, line %lu:  Mismatched parentheses\n", file_peek_path(), file_peek_line());
                       FREE(Command);
+                      FREE(newbuff);
                       return (spif_charptr_t) NULL;
                   }
                   *(--tmp1) = 0;
@@ -743,7 +744,10 @@ spifconf_shell_expand(spif_charptr_t s)
               newbuff[j] = *pbuff;
         }
     }
-    ASSERT_RVAL(j < CONFIG_BUFF, NULL);
+    if (j >= CONFIG_BUFF) {
+        FREE(newbuff);
+    }
+    REQUIRE_RVAL(j < CONFIG_BUFF, NULL);
     newbuff[j] = 0;
 
     D_PARSE(("spifconf_shell_expand(%s) returning \"%s\"\n", s, newbuff));
@@ -752,9 +756,7 @@ spifconf_shell_expand(spif_charptr_t s)
              strlen((char *) newbuff), j));
 
     strcpy((char *) s, (char *) newbuff);
-#if 0
     FREE(newbuff);
-#endif
     return (s);
 }
 
